@@ -13,3 +13,16 @@ mod response;
 #[cfg(test)]
 #[cfg(not(target_arch = "wasm32"))]
 pub mod tests;
+
+/// Verification hooks: re-exports of the private pure maths so that external property-based
+/// harnesses can drive them directly. Compiled only with `--cfg wwcore_verif`.
+#[cfg(wwcore_verif)]
+pub mod verif_hooks {
+    pub use crate::error::ContractError;
+    pub use crate::helpers::{
+        assert_slippage_tolerance, calculate_stableswap_y, compute_d,
+        compute_lp_mint_amount_for_stableswap_deposit, compute_offer_amount, compute_swap,
+        OfferAmountComputation, StableSwapDirection, SwapComputation,
+    };
+    pub use crate::math::Decimal256Helper;
+}
